@@ -642,7 +642,9 @@ class _VersionIndependentUnmarshaller:
                 )
                 co_exceptiontable = self.r_object(bytes_for_s=bytes_for_s)
             else:
-                co_lnotab = self.r_object(bytes_for_s=bytes_for_s)
+                # The line-number table is binary data in every version: do
+                # not let Python 2's "s" strings be shown as text here.
+                co_lnotab = self.r_object(bytes_for_s=True)
         else:
             # < 1.5 there is no lnotab, so no firstlineno.
             # SET_LINENO is used instead.
